@@ -28,6 +28,10 @@ import (
 
 	"github.com/mutagen-io/mutagen/pkg/filesystem"
 	"github.com/mutagen-io/mutagen/pkg/filesystem/behavior"
+	"github.com/mutagen-io/mutagen/pkg/identifier"
+	"github.com/mutagen-io/mutagen/pkg/logging"
+	"github.com/mutagen-io/mutagen/pkg/synchronization"
+	"github.com/mutagen-io/mutagen/pkg/synchronization/endpoint/local"
 	"github.com/mutagen-io/mutagen/pkg/synchronization/core"
 	mutagenignore "github.com/mutagen-io/mutagen/pkg/synchronization/core/ignore/mutagen"
 	"github.com/mutagen-io/mutagen/pkg/synchronization/rsync"
@@ -62,7 +66,9 @@ type Case struct {
 	// "transition": the swap happens in the middle of one core.Transition
 	// call (when its first staged file is requested), at a directory two
 	// levels above the paths the following changes of the same call name.
-	Late string `json:"late,omitempty"` // "", opener, transmit, transition
+	// "staging-link": a local endpoint staging inside its root finds the name
+	// of its staging directory occupied by a link to an outside directory.
+	Late string `json:"late,omitempty"` // "", opener, transmit, transition, staging-link
 }
 
 // lateProvider hands out freshly staged files and performs the swap when the
@@ -283,6 +289,42 @@ func judgeLate(c *Case, dir string) (violation string, nontrivial bool, classes 
 		core.Transition(context.Background(), root, changes, cache,
 			core.SymbolicLinkMode_SymbolicLinkModePortable, 0o600, 0o700, nil, false,
 			&lateProvider{dir: staging, swap: swap})
+	case "staging-link":
+		// A local endpoint that stages inside its root: the name of its
+		// staging directory is occupied by a link to the outside directory
+		// when files are to be staged.
+		id, err := identifier.New(identifier.PrefixSynchronization)
+		if err != nil {
+			return "", false, nil
+		}
+		cfg := &synchronization.Configuration{
+			SynchronizationMode: core.SynchronizationMode_SynchronizationModeTwoWaySafe,
+			WatchMode:           synchronization.WatchMode_WatchModeNoWatch,
+			StageMode:           synchronization.StageMode_StageModeInternal,
+		}
+		alpha := c.Absolute
+		ep, err := local.NewEndpoint(logging.NewLogger(logging.LevelDisabled, os.Stderr), root, id, synchronization.Version_Version1, cfg, alpha)
+		if err != nil {
+			return "", false, nil
+		}
+		defer ep.Shutdown()
+		if _, err, _ := ep.Scan(context.Background(), nil, true); err != nil {
+			return "", false, nil
+		}
+		name := map[bool]string{true: "alpha", false: "beta"}[alpha]
+		stagingName := filesystem.TemporaryNamePrefix + "staging-" + id + "-" + name
+		os.Symlink(other, filepath.Join(root, stagingName))
+		data := []byte("content to be staged")
+		digest := sha1.Sum(data)
+		paths := []string{victimRel + "/incoming"}
+		filtered, sigs, receiver, err := ep.Stage(paths, [][]byte{digest[:]})
+		if err == nil && len(filtered) > 0 && receiver != nil {
+			src := filepath.Join(dir, "source")
+			os.MkdirAll(filepath.Join(src, filepath.FromSlash(victimRel)), 0o755)
+			os.WriteFile(filepath.Join(src, filepath.FromSlash(paths[0])), data, 0o644)
+			rsync.Transmit(src, filtered, sigs, receiver)
+			ep.Transition(context.Background(), []*core.Change{{Path: paths[0], New: &core.Entry{Kind: core.EntryKind_File, Digest: digest[:]}}})
+		}
 	default:
 		return "", false, nil
 	}
@@ -485,7 +527,7 @@ func drawCase(rt *rapid.T) *Case {
 	g := disk.Gen{MaxDepth: 2, MaxFan: 4, Names: []string{"a", "b", "c", "sub"}, Links: false}
 	c := &Case{Swap: rapid.IntRange(0, 3).Draw(rt, "swap") > 0, Absolute: rapid.Bool().Draw(rt, "absolute")}
 	if rapid.IntRange(0, 4).Draw(rt, "late") == 0 {
-		c.Late = rapid.SampledFrom([]string{"opener", "transmit", "transition", "transition"}).Draw(rt, "late.kind")
+		c.Late = rapid.SampledFrom([]string{"opener", "transmit", "transition", "transition", "staging-link"}).Draw(rt, "late.kind")
 		for n := rapid.IntRange(0, 2).Draw(rt, "prefix"); n > 0; n-- {
 			c.Prefix = append(c.Prefix, rapid.SampledFrom([]string{"p", "q"}).Draw(rt, "prefix.name"))
 		}
